@@ -172,6 +172,8 @@ func c05BigInts() []int {
 	return out
 }
 
+type c05Plain2 struct{ A int }
+
 // more than 50 records of a comparable struct type whose interface field holds something that is not comparable
 func c05BoxedRecords(asIface bool) interface{} {
 	typed := make([]c05Boxed, 60)
@@ -248,6 +250,8 @@ func c05Values() []namedVal {
 		{"named-int", c05Cents(-1234)}, {"named-float", c05Ratio(-2.25)},
 		{"re-slash", "/"}, {"re-mods-unclosed", "/sim"}, {"re-flag-only", "/i"}, {"re-full", "/^h.l+o$/ims"}, {"re-broken", "/(/u"}, {"fmt-verbs", "%d %s %v %[3]d %*d %!"},
 		{"intbig-1", math.MaxInt64 - 1}, {"intmin+1", math.MinInt64 + 1},
+		{"float-small", 0.25}, {"float-neg-small", -0.5}, {"float32-small", float32(0.125)}, {"str-frac", "0.3"}, {"float-tiny", 1e-300}, {"float-just-below-one", 0.9999999999999999},
+		{"map-array-keys", map[[2]int]string{{1, 2}: "x", {3, 1}: "y"}}, {"short-ints", []int{1}}, {"map-struct-keys", map[c05Plain2]int{{A: 1}: 1}}, {"array2", [2]int{1, 2}},
 		{"boxed-records-big", c05BoxedRecords(false)}, {"boxed-records-big-iface", c05BoxedRecords(true)}, {"boxed-record", c05Boxed{V: map[string]interface{}{"k": 1}}}, {"boxed-array", [2]c05Boxed{{V: []int{1}}, {V: 2}}},
 		{"trail-backslash", "Y-m-d\\"}, {"backslash", "\\"}, {"date-letters", "D, d M Y H:i:s \\a\\t e T P U u v N S z t L o W c r B I O"}, {"trail-percent", "50%"}, {"trail-brace", "a{"},
 		{"self-ptr", c05SelfPtr()}, {"nil-callable", (func(io.Writer) error)(nil)}, {"named-ptr-meth", c05MethPtr(&c05Meth{V: 4})}, {"float32-huge", float32(1e21)},
@@ -728,7 +732,7 @@ func c05SeedSet() map[string]string {
 
 func c05Ctx() map[string]interface{} {
 	return map[string]interface{}{"v": "val", "a": 1, "b": 0, "c": 3, "d": []interface{}{1, 2}, "xs": []interface{}{1, 2, 3}, "m": map[string]interface{}{"k": "v"},
-		"f": "notafunc", "x": "xx", "raw": "RAW"}
+		"f": "notafunc", "x": "xx", "raw": "RAW", "mak": map[[2]int]string{{1, 2}: "x"}, "shortl": []int{1}, "longl": []int{1, 2, 3}}
 }
 
 var (
@@ -748,6 +752,7 @@ func c05Pathological() []string {
 		"{{ "+rep("-", 500)+"1 }}",
 		// nesting and chaining far beyond what a Go stack of the harness's size (96 MB) carries: an error is fine, a dead process is not
 		"{{ "+rep("(", 400000)+"1"+rep(")", 400000)+" }}", "{{ "+rep("not ", 400000)+"a }}", "{{ 1"+rep(" + 1", 300000)+" }}", "{{ "+rep("[", 300000)+rep("]", 300000)+" }}", "{{ a"+rep("|upper", 300000)+" }}", "{{ "+rep("-", 400000)+"1 }}",
+		"{{ mak[shortl] }}|{{ mak[longl] }}|{{ mak[xs] }}|{{ mak[d] }}|{{ mak['a'] }}|{{ mak[[1, 2]] }}", "{% if mak[shortl] is defined %}d{% endif %}{% for k, v in mak %}{{ v }}{% endfor %}{{ shortl in mak ? 1 : 0 }}",
 		"{% if "+rep("(", 200000)+"a"+rep(")", 200000)+" %}x{% endif %}", "{{ a ? "+rep("(a ? ", 100000)+"1"+rep(" : 2)", 100000)+" : 3 }}", "{{ f("+rep("f(", 200000)+"1"+rep(")", 200000)+") }}",
 		"{{ '2023-01-02'|date('Y-m-d\\ '|trim) }}", "{% set f = 'Y\\ '|trim %}{{ '2023-01-02'|date(f) }}{{ 'now'|date(f) }}", "{{ '%'|format(1) }}{{ 'a%'|format }}{{ '50\\ '|trim|format(1) }}",
 		"{{ "+rep("not ", 500)+"a }}",
